@@ -240,11 +240,11 @@ def translateOffset (ind : Bool) (row : InstrRow) (left : Value) (right : Str) (
         return { opCode := op, postByte := pb, additional := .none, size := size, maxSize := size, needsRes := needs }
       else if is8Bit i neg then
         let pb ← numV (raw0 ||| (base + 0x08))
-        return { opCode := op, postByte := pb, additional := l, size := size + 1, maxSize := size, needsRes := needs }
+        return { opCode := op, postByte := pb, additional := l, size := size + 1, maxSize := size + 1, needsRes := needs }
       else
         let pb ← numV (raw0 ||| (base + 0x09))
         let a ← numericOfInt i (some 4) .none
-        return { opCode := op, postByte := pb, additional := a, size := size + 2, maxSize := size, needsRes := needs }
+        return { opCode := op, postByte := pb, additional := a, size := size + 2, maxSize := size + 2, needsRes := needs }
     | _ => throw .other                                           -- no is_4_bit / is_8_bit on other classes
 
 def translateIndexed (o : Operand) (row : InstrRow) : R Pkg := do
